@@ -144,6 +144,14 @@ theorem step_refuses_unauthorised (v : Bool) (st : AuthState) (h : Handler) (sig
 theorem table_messages_validate_spelling :
     validatesSpelling "AddAccount" = true ∧ validatesSpelling "RemoveAccount" = true := by decide
 
+/-- the model's `holds` for the admin store is the code's: `IsAdminAccount` compares the stored string
+    with the signer's canonical string by string equality (so an entry imported by genesis in another
+    spelling is never recognised — and never needs revoking), and genesis entries are stored verbatim
+    [fails when the lookup starts to decode the stored spellings] -/
+theorem admin_lookup_is_string_equality :
+    Sif.Generated.Auth.adminCompare = "stringEq" ∧ Sif.Generated.Auth.adminGenesisVerbatim = some true := by
+  decide
+
 /-- every accepted grant names the account in its canonical spelling: the table only ever receives
     canonical strings through messages -/
 theorem accepted_grant_is_canonical (st : AuthState) (h : Handler) (hh : h.module = "admin" ∧ h.name = "AddAccount")
